@@ -5,6 +5,7 @@ PID = "C01"
 PRELUDE = H.PRELUDE
 FAILING = H.FAILING
 SHARD = 60
+IMPL_BATCH = 125      # histories per implementation subprocess (each step scans gc.get_objects(): keep batches small)
 RULE = ("random programs (histories) of 8-40 operations over the heap alphabet (construction, copy, slice, mask, "
         "column views, column selection, stacking, joins, sorts, arithmetic, vector/table/attribute writes, renames, "
         "fingerprints, drops); distinct = canonical JSON of the program; non-trivial = at least one successful write "
